@@ -255,13 +255,36 @@ func classFCase(m *mp.Model, doc *ClassF, seed uint64, fonts text.FontConfigurat
 			pages, _, _ = render.LayoutOnly(doc.HTML, fonts, render.Opts{})
 		}
 	})
+	if o.Timeout {
+		// a loaded machine can make a 1-10 ms layout miss the limit: run it again alone with a long limit;
+		// a real hang is C01's finding, here the case is skipped
+		var pages2 []*bo.PageBox // the first goroutine may still be writing `pages` / `rec`
+		o = render.Guard(180*time.Second, func() {
+			pages2, _, _ = render.LayoutOnly(doc.HTML, fonts, render.Opts{})
+		})
+		if !o.Timeout {
+			return classFJudge(m, doc, seed, out, pages2, nil)
+		}
+		if o.Timeout {
+			out.Count(doc.HTML, false)
+			out.Hit("classF:skipped-timeout")
+			out.Notes = append(out.Notes, "class-F layout timed out twice (20 s, 180 s); reported under C01: "+doc.HTML)
+			return nil
+		}
+	}
 	if !o.OK() {
 		out.Count(doc.HTML, nontrivial)
 		out.Add(res.Finding{Kind: "crash", Op: "crash:classF", Input: doc.HTML, Reason: o.Panic, Key: o.Site, Seed: seed})
 		return nil
 	}
+	return classFJudge(m, doc, seed, out, pages, rec)
+}
+
+func classFJudge(m *mp.Model, doc *ClassF, seed uint64, out *res.Result, pages []*bo.PageBox, rec *render.Rec) error {
+	var docToks []int
+	doc.Root.Leaves(&docToks)
 	texts := PageTexts(pages)
-	nontrivial = len(pages) >= 2
+	nontrivial := len(pages) >= 2
 	out.Count(doc.HTML, nontrivial)
 	out.Hit(fmt.Sprintf("classF:pages=%d", min(len(pages), 8)))
 	for f := range doc.Features {
